@@ -2,7 +2,7 @@
    Property theorems only; proofs in Proofs/C03Proof.v, status in bin/propcfg/C03.py. *)
 From Coq Require Import List ZArith Bool Permutation Lia.
 From DD Require Import Model.Circuit Model.Query Proofs.Semantics Proofs.CountsA Proofs.QueryDefs
-  Proofs.C03Proof Props.C01.
+  Proofs.C03Proof Proofs.C03Contra Props.C01.
 Import ListNotations.
 Open Scope Z_scope.
 
@@ -126,3 +126,18 @@ Proof. repeat split; vm_compute; reflexivity || lia. Qed.
 Example ex_core_core : WFQ ex_core 2 /\ 0 < root_count ex_core /\ core (build ex_core 2) = [1] /\
   sat (build ex_core 2) [-1] = false /\ sat (build ex_core 2) [1; -2] = true.
 Proof. split; [apply check_wf_WFQ; vm_compute; reflexivity|repeat split; vm_compute; reflexivity]. Qed.
+
+(* A list that contains both x and -x is unsatisfiable (any length, any position of the pair). *)
+Theorem C03_sat_contradictory_false : forall C n A x,
+  WFQ C n -> 0 < root_count C -> in_range n A -> In x A -> In (- x) A ->
+  sat (build C n) A = false.
+Proof. exact sat_contradictory. Qed.
+Print Assumptions C03_sat_contradictory_false.
+
+Example ex_sat_contradictory :
+  WFQ ex_iff 2 /\ 0 < root_count ex_iff /\ sat (build ex_iff 2) [1; 2; -1] = false /\
+  sat (build ex_iff 2) [1; 2] = true.
+Proof.
+  split; [apply check_wf_WFQ; vm_compute; reflexivity|]. split; [vm_compute; reflexivity|].
+  split; vm_compute; reflexivity.
+Qed.
